@@ -80,6 +80,8 @@ func (l *UnixSock) Serve(establish EstablishFn) {
 					l.log.Warn("", "error", err)
 				}
 			}()
+		} else {
+			_ = conn.Close() // accepted while the listener is closing: do not leave the connection open and unserved
 		}
 	}
 }
